@@ -241,7 +241,7 @@ func (ki *Index) ForEachKmerOf(s *linear.Seq, start, end int, f Eval) (err error
 
 	// Preload the first k-1 bases of the first well defined k-mer or set high to the next position
 	basePosition := start
-	for ; basePosition < start+ki.k-1; basePosition++ {
+	for ; basePosition < start+ki.k-1 && basePosition < end; basePosition++ {
 		currentBase = ki.lookUp[s.Seq[basePosition]]
 		if currentBase >= 0 {
 			kmer = (kmer << 2) | Kmer(currentBase)
